@@ -36,7 +36,7 @@ FILL = ['fill', 'market', 'path']
 
 
 def matching_cfg(K, N, R, liq=False, props=None):
-    inv = ["NoMissedFill", "NoMissedInRange", "TempFollowsPath", "SkipBranchesDead", "TypeOK"] + (["LiqEffect"] if liq else [])
+    inv = ["NoMissedFill", "NoMissedInRange", "TempFollowsPath", "SkipBranchesDead", "MarketFilledInMinute", "TypeOK"] + (["LiqEffect"] if liq else [])
     prop = ["FillAtFirstReach", "NeverBeforeSubmit", "FinalIsFinal", "PathOrder", "ReactionAfterFill"] + \
            (["LiqIff", "LiqOnlyInCheck"] if liq else [])
     if props is not None:
@@ -135,8 +135,11 @@ def random_scenarios(rng, n, K, N, R, F, kind, m=1):
         fs = sorted(rng.randint(1, F) for _ in range(r))
         script = []
         for f in fs:
-            if rng.random() < 0.6:
+            x = rng.random()
+            if x < 0.5:
                 script.append([f, 's', rng.randint(1, K)])
+            elif x < 0.75:
+                script.append([f, 'm', 0])
             else:
                 script.append([f, 'c', rng.randint(1, N + R)])
         out.append({'kind': kind, 'mins': mins, 'prices': prices, 'script': script})
@@ -179,6 +182,9 @@ def vivo_items(ctx, n, check, sims=('step', 'fast'), id0=1, hooks_bias=False):
             it['cfg'] = futures_config(lev=2, fee=0.0, balance=100000)
         if i % 16 in (14, 15):  # market orders submitted while a market order is being filled
             it['strategy'] = 'nested_market'
+            it['cfg'] = futures_config(lev=2, fee=0.0, balance=100000)
+        if i % 16 in (2, 3):    # a market order created by the fill hook of one entry while other entries rest further on
+            it['strategy'] = 'hook_market'
             it['cfg'] = futures_config(lev=2, fee=0.0, balance=100000)
         if i % 8 in (4, 5):     # two routes on one exchange: matching must stay per symbol
             it['symbols'] = ['BTC-USDT', 'ETH-USDT']
